@@ -67,8 +67,11 @@ fn main() {
     ctx.assume("kspec (independent executable specification) passed its RFC self-test at start-up");
     if let Ok(n) = std::env::var("KVERIF_EXTRA_NOTE") { ctx.note(n); }
     ctx.put("build_profile", serde_json::json!(if cfg!(debug_assertions) { "opt-level 3, debug assertions and overflow checks ON" } else { "opt-level 3, debug assertions and overflow checks OFF (as shipped)" }));
-    if !props::run(&ctx) { eprintln!("unknown property {}", id); std::process::exit(2); }
+    // everything runs on a spawned thread (the stack size the worker threads have), so that a replay sees the same stack limit
+    let known = std::thread::scope(|s| s.spawn(|| props::run(&ctx)).join().unwrap_or(true));
+    if !known { eprintln!("unknown property {}", id); std::process::exit(2); }
     let rc = ctx.finish();
+    for w in 0..core::TRACE_SLOTS { let _ = std::fs::remove_file(format!("{}.w{}.json", trace_file, w)); }
     if std::env::var("KVERIF_TRACE_FILE").map(|s| s.is_empty()).unwrap_or(true) { let _ = std::fs::remove_file(&trace_file); }
     std::process::exit(rc);
 }
